@@ -196,7 +196,9 @@ fn bound_for(threads: u32, queue: usize, sets: usize, thorough: bool) -> usize {
             }
         }
         (_, true) => {
-            if sets <= 3 {
+            if queue <= 2 && sets <= 2 && sets >= 1 {
+                2
+            } else if sets <= 3 {
                 1
             } else {
                 0
